@@ -267,6 +267,7 @@ func TestC11(t *testing.T) {
 			w.f.Exec(&oracletypes.MsgCreateFeed{Creator: a.Bech, Name: fmt.Sprintf("feed%d", i)})
 			w.f.Exec(&oracletypes.MsgUpdateFeed{Creator: a.Bech, Name: fmt.Sprintf("feed%d", i), Data: `{"price":"1"}`})
 			w.f.Exec(rnstypes.NewMsgRegisterName(a.Bech, fmt.Sprintf("owner%d.jkl", i), 1, "{}", true))
+			w.f.Exec(rnstypes.NewMsgRegisterName(a.Bech, fmt.Sprintf("second%d.jkl", i), 1, "{}", false)) // a second name the primary pointer does not point at
 			w.f.Exec(&notiftypes.MsgCreateNotification{Creator: accs[(i+1)%3].Bech, To: a.Bech, Contents: "{}"})
 			w.f.Exec(&notiftypes.MsgBlockSenders{Creator: a.Bech, ToBlock: []string{accs[4].Bech}})
 			w.buyStorage(a, a.Bech, 30, 1_000_000_000, "")
@@ -281,7 +282,7 @@ func TestC11(t *testing.T) {
 			}
 		}
 		env := func() *fillEnv {
-			e := &fillEnv{Height: w.f.Height(), Names: []string{"owner0.jkl", "owner1.jkl", "owner2.jkl", "Owner0.jkl", "owner1xjkl", "feed0", "feed1", "feed2", "Feed0", "FEED1", "feed0 ", " feed1", "fe ed2"}}
+			e := &fillEnv{Height: w.f.Height(), Names: []string{"owner0.jkl", "owner1.jkl", "owner2.jkl", "second0.jkl", "second1.jkl", "second2.jkl", "Owner0.jkl", "owner1xjkl", "feed0", "feed1", "feed2", "Feed0", "FEED1", "feed0 ", " feed1", "fe ed2"}}
 			for _, a := range accs {
 				e.Accounts = append(e.Accounts, a.Bech)
 			}
@@ -340,8 +341,12 @@ func TestC11(t *testing.T) {
 			if sig, msg := c11Compare(before, c11Owned(w), signer, msgSummary(m)); sig != "" {
 				failf(rt, rec, sig, w.trace, "%s", msg)
 			}
-			if rapid.IntRange(0, 9).Draw(rt, "tick") == 0 {
+			switch rapid.IntRange(0, 19).Draw(rt, "tick") {
+			case 0, 1:
 				w.f.SetBlock(w.f.Height()+1, w.f.Time().Add(6*time.Second))
+			case 2: // long after every name registered so far has expired
+				w.f.SetBlock(w.f.Height()+6_000_000, time.Unix(w.f.Time().Unix()+36_000_000, 0).UTC())
+				w.logf("height jumps by 6,000,000 blocks")
 			}
 		}
 		// wasm binding: a contract can post only in its own name
